@@ -1,5 +1,7 @@
 package term
 
+import "sort"
+
 // PMap is a persistent map int64 -> *Term (32-ary trie over the zig-zag encoded key,
 // path copying). The nil *PMap is the empty map.
 type PMap struct {
@@ -114,42 +116,5 @@ func (m *PMap) Keys() []int64 {
 }
 
 func sortInt64(a []int64) {
-	// insertion sort is fine for small, use stdlib otherwise
-	if len(a) < 16 {
-		for i := 1; i < len(a); i++ {
-			for j := i; j > 0 && a[j] < a[j-1]; j-- {
-				a[j], a[j-1] = a[j-1], a[j]
-			}
-		}
-		return
-	}
-	quick(a)
-}
-
-func quick(a []int64) {
-	for len(a) > 16 {
-		p := a[len(a)/2]
-		i, j := 0, len(a)-1
-		for i <= j {
-			for a[i] < p {
-				i++
-			}
-			for a[j] > p {
-				j--
-			}
-			if i <= j {
-				a[i], a[j] = a[j], a[i]
-				i++
-				j--
-			}
-		}
-		if j+1 < len(a)-i {
-			quick(a[:j+1])
-			a = a[i:]
-		} else {
-			quick(a[i:])
-			a = a[:j+1]
-		}
-	}
-	sortInt64(a)
+	sort.Slice(a, func(i, j int) bool { return a[i] < a[j] })
 }
